@@ -51,6 +51,12 @@ func (c18ProbeRT) RoundTrip(req *http.Request) (*http.Response, error) {
 	if strings.HasPrefix(req.URL.Host, "bad") { // targets named bad-* never become healthy
 		status = 500
 	}
+	if strings.HasPrefix(req.URL.Host, "flap") { // targets named flap-* fail their probes one window in three:
+		// rotations shrink and grow while requests are being claimed
+		if (time.Now().UnixNano()/int64(5*time.Millisecond)+int64(len(req.URL.Host)))%3 == 0 {
+			status = 500
+		}
+	}
 	return &http.Response{StatusCode: status, Status: strconv.Itoa(status), Proto: "HTTP/1.1", ProtoMajor: 1, ProtoMinor: 1,
 		Header: http.Header{}, Body: io.NopCloser(strings.NewReader("")), Request: req}, nil
 }
@@ -170,10 +176,14 @@ func c18TargetOptions() TargetOptions {
 }
 
 func (s *c18Sys) targets(rnd *rand.Rand, allowBad bool) []string {
-	n := 1 + rnd.Intn(2)
+	n := 1 + rnd.Intn(3)
 	out := []string{}
 	for i := 0; i < n; i++ {
-		out = append(out, fmt.Sprintf("t%d", s.seq.Add(1)))
+		if rnd.Intn(3) == 0 {
+			out = append(out, fmt.Sprintf("flap-%d", s.seq.Add(1)))
+		} else {
+			out = append(out, fmt.Sprintf("t%d", s.seq.Add(1)))
+		}
 	}
 	if allowBad && rnd.Intn(12) == 0 {
 		out[0] = fmt.Sprintf("bad-%d", s.seq.Add(1))
